@@ -661,7 +661,7 @@ func selfCheck(w *exec.World, f any, h harness, models [][]exec.InputVal, tier s
 			want = "?" + end
 		}
 		if want != nat.Status {
-			probs = append(probs, fmt.Sprintf("self-check mismatch on vector %d of %s: executor=%s (end %s) native=%s %s inputs=%v", i, h.Fn, want, end, nat.Status, nat.Detail, mv))
+			probs = append(probs, fmt.Sprintf("self-check mismatch on vector %d of %s: executor=%s (end %s) native=%s %s inputs=%v %s", i, h.Fn, want, end, nat.Status, nat.Detail, mv, nat.Output))
 			continue
 		}
 		if !equalStrs(p.Observed, nat.Obs) {
